@@ -49,6 +49,7 @@ func runTanIO(kind string, mlfs int64, ops []op, failAt int, fsMode bool, dropUn
 	if fsMode {
 		fs.failOp = failAt
 		fs.failRegular = kind == "tan"
+		fs.failWALOnly = !isTanKind(kind)
 	} else {
 		fs.failLogWrite = failAt
 	}
@@ -106,10 +107,25 @@ func runTanIO(kind string, mlfs int64, ops []op, failAt int, fsMode bool, dropUn
 	if inflight != nil || s.db == nil {
 		// the operation failed: the engine panics, the process dies without closing
 		// the store; what was written survives, or only what was fsynced
-		fs.kill()
-		_ = s.close()
-		if dropUnsynced {
-			mem.ResetToSyncedState()
+		if isTanKind(kind) {
+			fs.kill()
+			_ = s.close()
+			if dropUnsynced {
+				mem.ResetToSyncedState()
+			}
+		} else {
+			// Pebble's background goroutines call Fatalf (= panic) when files vanish
+			// under them: the store is closed before the process is taken away; with
+			// dropUnsynced nothing written from now on (the close included) is durable
+			if dropUnsynced {
+				fs.powerOff()
+			}
+			_ = s.close()
+			fs.kill()
+			if dropUnsynced {
+				mem.ResetToSyncedState()
+				mem.SetIgnoreSyncs(false)
+			}
 		}
 	} else {
 		_ = s.close()
@@ -144,6 +160,17 @@ func runTanIO(kind string, mlfs int64, ops []op, failAt int, fsMode bool, dropUn
 			if sameObs(gotB, wantB, nil) {
 				continue
 			}
+			// tan's ImportSnapshot removes everything of the replica before it writes
+			// the snapshot record: interrupted in between the replica is empty (accepted,
+			// the import is re-run; see the crash family)
+			if inflight.Kind == "IMPORT" && inflight.N == n {
+				candC := candA
+				candC.apply(op{Kind: "REMNODE", N: n})
+				wantC := expected(n, &candC)
+				if sameObs(s.observe(n, &candC, &wantC), wantC, nil) {
+					continue
+				}
+			}
 		}
 		if res.viol == "" {
 			what := "acknowledged-save-not-readable"
@@ -175,7 +202,7 @@ type tanioCase struct {
 func parseTanIO(line string) (tanioCase, bool) {
 	head, body, _ := strings.Cut(line, " | ")
 	hf := strings.Fields(head)
-	if len(hf) != 5 || !isTanKind(hf[2]) {
+	if len(hf) != 5 || (!isTanKind(hf[2]) && hf[2] != "plain" && hf[2] != "batched") {
 		return tanioCase{}, false
 	}
 	m, err := strconv.ParseInt(hf[3], 10, 64)
@@ -216,7 +243,7 @@ func runTanIOLine(line string, obs *vh.LineWriter, st *vh.Stats) {
 			st.Case(c.key, false, c.line)
 			return
 		}
-		probe := &powerFS{failRegular: c.kind == "tan"}
+		probe := &powerFS{failRegular: c.kind == "tan", failWALOnly: !isTanKind(c.kind)}
 		for i := r0.openEnd; i < r0.opsEnd && i < len(r0.trace); i++ {
 			if probe.opEligible(r0.trace[i]) {
 				points = append(points, i, i)
@@ -366,6 +393,40 @@ func genTanIOCases(r *vh.Rand, tier string, n int) []string {
 		body := opsText(ops)
 		for _, kind := range []string{"tan", "tanmux"} {
 			out = append(out, fmt.Sprintf("iofs%d.%s tanio %s %d fsall | %s", i, kind, kind, []int64{700, 1200}[i%2], body))
+		}
+		// the real Pebble store (kv_pebble.go over pebble over the failing FS): WAL writes and
+		// fsyncs, and with reopens inside the workload the WAL replay / memtable flush
+		// (sstable create, write, sync, MANIFEST edits, renames, directory syncs)
+		{
+			var pops []op
+			for j, o := range ops {
+				pops = append(pops, o)
+				if j == 1 || j == 3 {
+					pops = append(pops, op{Kind: "REOPEN"})
+				}
+			}
+			for _, kind := range []string{"plain", "batched"} {
+				out = append(out, fmt.Sprintf("iopb%d.%s tanio %s 0 fsall | %s", i, kind, kind, opsText(pops)))
+			}
+		}
+		// the same with removal / compaction / import in the workload: RemoveEntriesTo (a
+		// compaction record, a MANIFEST edit that drops obsolete files), ImportSnapshot
+		// (new log, removal of everything, snapshot record)
+		if nd := &ref.nodes[0]; len(nd.ents) > 2 {
+			rm := op{Kind: "REMTO", N: 0, A: nd.marker + 1 + uint64(r.Intn(len(nd.ents)-1))}
+			if ref.wf(rm) {
+				ops = append(ops, rm)
+				ref.apply(rm)
+			}
+			add(0)
+			add(2, 0)
+			imp := op{Kind: "IMPORT", N: 2, Ss: snap{Index: ref.nodes[2].last() + 5, Term: 3, Tag: 77}}
+			if ref.wf(imp) {
+				ops = append(ops, imp)
+				ref.apply(imp)
+			}
+			add(0)
+			out = append(out, fmt.Sprintf("iorm%d.tan tanio tan %d fsall | %s", i, []int64{700, 1200}[i%2], opsText(ops)))
 		}
 	}
 	return out
